@@ -4,6 +4,8 @@ C16 — compositions are rung row for row and called call for call.
 import Wheatley.Lemmas.Outs
 import Wheatley.Lemmas.Gen
 import Wheatley.Lemmas.Cli
+import Wheatley.Lemmas.Handlers
+import Wheatley.Lemmas.BotInv
 namespace Wheatley.C16
 
 /-- **Row for row**: the `k`-th request to a composition generator yields the `k`-th payload row with
@@ -182,5 +184,339 @@ theorem cli_comp_with_start_row (c : Parse.Chars) (a : Cli.Args) (u : Option (Li
     Cli.createRowGenerator c a u = .error .exitCompStartRow := by
   unfold Cli.createRowGenerator
   simp [hc, hs]
+
+/-! ### No calls at all when told not to - for the whole run -/
+
+section NoCalls
+variable {K : Type} [Num K]
+
+/-- The calls among the observations. -/
+def callsOf (obs : List (Obs K)) : List (Obs K) := obs.filter (fun o => o.out.isCall)
+
+/-- Anything but the settings channel (which could switch calling back on). -/
+def NoSetting : Ev → Prop
+  | .msg (.setting _) => False
+  | _ => True
+
+theorem foldl_applyOut_no_call (wt : K → K) (ct : K) (outs : List Out) :
+    ∀ (w : World K), (∀ o ∈ outs, o.isCall = false) →
+      callsOf (outs.foldl (World.applyOut wt ct) w).obs = callsOf w.obs := by
+  induction outs with
+  | nil => intro w _; rfl
+  | cons o rest ih =>
+    intro w h
+    obtain ⟨_, o1, _⟩ := applyOut_pc_obs wt ct w o
+    simp only [List.foldl_cons]
+    rw [ih (World.applyOut wt ct w o) (fun o' ho' => h o' (by simp [ho'])), o1]
+    simp [callsOf, h o (by simp)]
+
+theorem snrFinish_callComps (b : Bot) (o : List Out) : (Bot.snrFinish b o).1.callComps = b.callComps := by
+  unfold Bot.snrFinish
+  split
+  · rfl
+  · have hg : (b.generateNextRow).1.callComps = b.callComps := by
+      unfold Bot.generateNextRow
+      split
+      · rfl
+      · split
+        · rfl
+        · split <;> rfl
+    rcases hq : b.generateNextRow with ⟨b3, o9⟩
+    rw [hq] at hg
+    simp only [] at hg ⊢
+    split <;> exact hg
+
+theorem startNextRow_callComps (b : Bot) (f : Bool) : (b.startNextRow f).1.callComps = b.callComps := by
+  unfold Bot.startNextRow
+  split
+  · unfold Bot.snrPrep; split <;> rfl
+  · simp only []
+    split
+    · rw [snrFinish_callComps]; show b.snrPrep.callComps = _; unfold Bot.snrPrep; split <;> rfl
+    · rw [snrFinish_callComps]; show b.snrPrep.callComps = _; unfold Bot.snrPrep; split <;> rfl
+
+theorem tickEnd_callComps (b : Bot) (bell : Nat) (uc : Bool) : (b.tickEnd bell uc).1.callComps = b.callComps := by
+  unfold Bot.tickEnd
+  simp only []
+  split
+  · exact startNextRow_callComps _ false
+  · rfl
+
+theorem lookTo_quiet (b : Bot) (h : b.callComps = false) :
+    b.lookTo.1.callComps = false ∧ ∀ o ∈ b.lookTo.2, o.isCall = false := by
+  unfold Bot.lookTo
+  split
+  · exact ⟨h, by intro o ho; simp at ho; rcases ho with rfl | rfl <;> rfl⟩
+  · refine ⟨(startNextRow_callComps _ true).trans h, ?_⟩
+    intro o ho
+    simp only [List.cons_append, List.nil_append, List.mem_cons] at ho
+    rcases ho with rfl | rfl | ho
+    · rfl
+    · rfl
+    · cases hc : o.isCall
+      · rfl
+      · have := (startNextRow_outs b.armLookTo true o ho).2 hc
+        have hq : b.armLookTo.callComps = b.callComps := rfl
+        rw [hq, h] at this
+        cases this.1
+
+theorem onSizeChange_quiet (b : Bot) (h : b.callComps = false) :
+    b.onSizeChange.1.callComps = false ∧ ∀ o ∈ b.onSizeChange.2, o.isCall = false := by
+  unfold Bot.onSizeChange
+  split
+  · exact ⟨h, by intro o ho; simp at ho; subst ho; rfl⟩
+  · exact ⟨h, by simp⟩
+
+/-- With calling off, no handler (but the settings') makes a call, and calling stays off. -/
+theorem onMsg_quiet_calls (b : Bot) (m : Msg) (hq : NoSetting (.msg m)) (h : b.callComps = false) :
+    (b.onMsg m).1.callComps = false ∧ ∀ o ∈ (b.onMsg m).2, o.isCall = false := by
+  unfold Bot.onMsg
+  simp only []
+  cases m with
+  | bellRung st who =>
+    simp only []
+    split
+    · exact ⟨h, by simp⟩
+    · split
+      · exact ⟨h, by intro o ho; simp at ho; subst ho; rfl⟩
+      · exact ⟨h, by simp⟩
+  | globalState st =>
+    simp only []
+    exact onSizeChange_quiet _ h
+  | sizeChange n =>
+    simp only []
+    split
+    · exact onSizeChange_quiet _ h
+    · exact ⟨h, by simp⟩
+  | call c =>
+    simp only [Bot.onCall]
+    split
+    · unfold Bot.onLookTo
+      split
+      · exact lookTo_quiet _ h
+      · exact ⟨h, by simp⟩
+    · split
+      · have hg := no_calls_go ({ b with tower := b.tower.apply (.call c) } : Bot) h
+        refine ⟨?_, by rw [hg]; simp⟩
+        unfold Bot.onGo
+        split <;> exact h
+      · repeat' split
+        all_goals exact ⟨h, by simp⟩
+  | setting kvs => exact absurd hq (by simp [NoSetting])
+  | rowGen g =>
+    simp only []
+    split
+    · split <;> exact ⟨h, by simp⟩
+    · exact ⟨h, by simp⟩
+  | stopTouch =>
+    simp only []
+    split
+    · exact ⟨h, by intro o ho; simp at ho; rcases ho with rfl | rfl <;> rfl⟩
+    · exact ⟨h, by simp⟩
+  | userEntered _ _ => exact ⟨h, by simp⟩
+  | userList _ => exact ⟨h, by simp⟩
+  | assign _ _ => exact ⟨h, by simp⟩
+  | userLeft _ => exact ⟨h, by simp⟩
+
+/-- Calling is off, and nothing has been called so far beyond `cs`. -/
+def Mute (cs : List (Obs K)) (w : World K) : Prop := w.bot.callComps = false ∧ callsOf w.obs = cs
+
+theorem finishTick_mute (wt : K → K) (cs : List (Obs K)) (w : World K) (bell : Nat) (uc : Bool) (h : Mute cs w) :
+    Mute cs (w.finishTick wt bell uc).1 := by
+  unfold World.finishTick
+  simp only []
+  have hb := (foldl_applyOut_bot_crashed wt w.now (w.bot.tickEnd bell uc).2
+    ({ w with bot := (w.bot.tickEnd bell uc).1 } : World K)).1
+  have ho := foldl_applyOut_no_call wt w.now (w.bot.tickEnd bell uc).2
+    ({ w with bot := (w.bot.tickEnd bell uc).1 } : World K) (no_calls_tick w.bot bell uc h.1)
+  have hc := (tickEnd_callComps w.bot bell uc).trans h.1
+  split
+  · exact ⟨by dsimp only; rw [hb]; exact hc, by dsimp only; rw [ho]; exact h.2⟩
+  · exact ⟨by dsimp only; rw [hb]; exact hc, by dsimp only; rw [ho]; exact h.2⟩
+
+theorem afterInner_mute (wt : K → K) (cs : List (Obs K)) (w : World K) (bell : Nat) (uc hand : Bool) (d : K) (js : Bool)
+    (h : Mute cs w) : Mute cs (w.afterInner wt bell uc hand d js).1 := by
+  unfold World.afterInner
+  split
+  · split
+    · simp only []
+      split
+      · exact finishTick_mute wt cs _ bell uc h
+      · exact h
+    · exact finishTick_mute wt cs _ bell uc h
+  · exact finishTick_mute wt cs w bell uc h
+
+theorem mainStep_mute (wt : K → K) (cs : List (Obs K)) (w : World K) (h : Mute cs w) : Mute cs (w.mainStep wt).1 := by
+  unfold World.mainStep
+  split
+  · exact h
+  · split
+    · split
+      · split
+        · simp only []
+          obtain ⟨hc, hq⟩ := lookTo_quiet w.bot h.1
+          split
+          · refine ⟨?_, ?_⟩
+            · dsimp only; rw [(foldl_applyOut_bot_crashed wt _ _ _).1]; exact hc
+            · dsimp only; rw [foldl_applyOut_no_call wt _ _ _ hq]; exact h.2
+          · refine ⟨?_, ?_⟩
+            · dsimp only; rw [(foldl_applyOut_bot_crashed wt _ _ _).1]; exact hc
+            · dsimp only; rw [foldl_applyOut_no_call wt _ _ _ hq]; exact h.2
+        · exact h
+      · exact h
+    · exact h
+  · exact h
+  · split
+    · exact h
+    · refine ⟨?_, ?_⟩
+      · rw [(foldl_applyOut_bot_crashed wt _ _ _).1]; exact h.1
+      · rw [foldl_applyOut_no_call wt _ _ _ (by
+          intro o ho
+          split at ho
+          · simp at ho; rcases ho with rfl | rfl <;> rfl
+          · simp at ho)]
+        exact h.2
+  · split <;> exact h
+  · split
+    · split
+      · exact h
+      · have hbw : ∀ bell uc, (w.beginWait bell uc w.bot.hand).1.bot = w.bot ∧
+            (w.beginWait bell uc w.bot.hand).1.obs = w.obs := by
+          intro bell uc
+          unfold World.beginWait
+          split
+          · exact ⟨rfl, rfl⟩
+          · simp only []
+            split <;> (split <;> exact ⟨rfl, rfl⟩)
+        refine ⟨?_, ?_⟩
+        · dsimp only; rw [(hbw _ _).1]; exact h.1
+        · dsimp only; rw [(hbw _ _).2]; exact h.2
+    · refine ⟨?_, ?_⟩
+      · rw [(foldl_applyOut_bot_crashed wt _ _ _).1]; exact h.1
+      · rw [foldl_applyOut_no_call wt _ _ _ (by
+          intro o ho
+          split at ho
+          · simp at ho; subst ho; rfl
+          · simp at ho)]
+        exact h.2
+  · split
+    · exact h
+    · exact afterInner_mute wt cs w _ _ _ _ _ h
+  · apply afterInner_mute
+    split <;> exact h
+  · exact afterInner_mute wt cs w _ _ _ _ _ h
+  · exact h
+
+theorem deliver_mute (wt : K → K) (cs : List (Obs K)) (w : World K) (e : Ev) (hq : NoSetting e) (h : Mute cs w) :
+    Mute cs (World.deliver wt w e) := by
+  cases e with
+  | resume =>
+    unfold World.deliver
+    simp only []
+    split
+    · rename_i s _
+      unfold World.lookToResume World.lookToRest
+      simp only []
+      have hin : (World.lookToInner ({ w with suspended := none } : World K) s).bot = w.bot ∧
+          (World.lookToInner ({ w with suspended := none } : World K) s).obs = w.obs := by
+        unfold World.lookToInner
+        split
+        · obtain ⟨_, h2, h3⟩ := withReg_pc_obs ({ w with suspended := none } : World K) _
+          exact ⟨h3, h2⟩
+        · exact ⟨rfl, rfl⟩
+      generalize World.lookToInner ({ w with suspended := none } : World K) s = wi at hin
+      have hcc : wi.bot.callComps = false := by rw [hin.1]; exact h.1
+      have hno : ∀ o ∈ (wi.bot.armLookTo.startNextRow true).2, o.isCall = false := by
+        intro o ho
+        cases hc : o.isCall
+        · rfl
+        · have := (startNextRow_outs wi.bot.armLookTo true o ho).2 hc
+          have hq' : wi.bot.armLookTo.callComps = wi.bot.callComps := rfl
+          rw [hq', hcc] at this
+          cases this.1
+      have hc2 : (wi.bot.armLookTo.startNextRow true).1.callComps = false :=
+        (startNextRow_callComps _ true).trans hcc
+      split
+      · refine ⟨?_, ?_⟩
+        · dsimp only; rw [(foldl_applyOut_bot_crashed wt _ _ _).1]; exact hc2
+        · dsimp only; rw [foldl_applyOut_no_call wt _ _ _ hno]; dsimp only; rw [hin.2]; exact h.2
+      · refine ⟨?_, ?_⟩
+        · rw [(foldl_applyOut_bot_crashed wt _ _ _).1]; exact hc2
+        · rw [foldl_applyOut_no_call wt _ _ _ hno]; dsimp only; rw [hin.2]; exact h.2
+    · exact h
+  | msg m =>
+    unfold World.deliver
+    simp only []
+    split
+    · unfold World.lookToBegin
+      exact ⟨h.1, by simp [callsOf, Out.isCall]; exact h.2⟩
+    · unfold World.deliverMsg
+      simp only []
+      obtain ⟨hc, hno⟩ := onMsg_quiet_calls w.bot m hq h.1
+      split
+      · refine ⟨?_, ?_⟩
+        · dsimp only; rw [(foldl_applyOut_bot_crashed wt _ _ _).1]; exact hc
+        · dsimp only; rw [foldl_applyOut_no_call wt _ _ _ hno]; exact h.2
+      · refine ⟨?_, ?_⟩
+        · rw [(foldl_applyOut_bot_crashed wt _ _ _).1]; exact hc
+        · rw [foldl_applyOut_no_call wt _ _ _ hno]; exact h.2
+
+theorem sleep_go_mute (wt : K → K) (limit : K) (cs : List (Obs K)) :
+    ∀ (events : List (K × Ev)) (w : World K), (∀ ev ∈ events, NoSetting ev.2) → Mute cs w →
+      Mute cs (World.sleep.go wt limit w events).1 ∧ (∀ ev ∈ (World.sleep.go wt limit w events).2, NoSetting ev.2) := by
+  intro events
+  induction events with
+  | nil => intro w _ h; exact ⟨h, by intro ev hev; cases hev⟩
+  | cons ev rest ih =>
+    intro w hq h
+    obtain ⟨t, m⟩ := ev
+    unfold World.sleep.go
+    split
+    · apply ih _ (fun ev' h' => hq ev' (by simp [h']))
+      apply deliver_mute wt cs _ m (hq (t, m) (by simp))
+      split
+      · exact h
+      · exact h
+    · exact ⟨h, hq⟩
+
+theorem sleep_mute (wt : K → K) (endTime : K) (cs : List (Obs K)) (w : World K) (d : K) (events : List (K × Ev))
+    (hq : ∀ ev ∈ events, NoSetting ev.2) (h : Mute cs w) :
+    Mute cs (World.sleep wt endTime w d events).1 ∧ (∀ ev ∈ (World.sleep wt endTime w d events).2.1, NoSetting ev.2) := by
+  unfold World.sleep
+  simp only []
+  split
+  · exact sleep_go_mute wt endTime cs events w hq h
+  · obtain ⟨h1, h2⟩ := sleep_go_mute wt (w.now + d) cs events w hq h
+    exact ⟨⟨h1.1, h1.2⟩, h2⟩
+
+/-- **No calls at all when told not to, however long, whatever arrives**: with calling off (`--no-calls`, or the
+setting), whatever composition is rung, whenever Go comes, whatever else happens - as long as nobody touches the
+settings - `World.run`, for any fuel, adds no `c_call` to what has been emitted. -/
+theorem no_calls_when_told_not_to (wt : K → K) (endTime : K) :
+    ∀ (fuel : Nat) (w : World K) (events : List (K × Ev)), w.bot.callComps = false → (∀ ev ∈ events, NoSetting ev.2) →
+      callsOf (World.run wt endTime fuel w events).1.obs = callsOf w.obs := by
+  intro fuel w events hc hq
+  suffices h : ∀ (fuel : Nat) (w' : World K) (events : List (K × Ev)), Mute (callsOf w.obs) w' →
+      (∀ ev ∈ events, NoSetting ev.2) → Mute (callsOf w.obs) (World.run wt endTime fuel w' events).1 from
+    (h fuel w events ⟨hc, rfl⟩ hq).2
+  intro fuel
+  induction fuel with
+  | zero => intro w' events h _; exact h
+  | succ fuel ih =>
+    intro w' events h hq
+    have hm := mainStep_mute wt _ w' h
+    unfold World.run
+    split
+    · rename_i w1 heq; rw [heq] at hm; exact hm
+    · rename_i w1 heq; rw [heq] at hm; exact ih w1 events hm hq
+    · rename_i w1 d heq
+      rw [heq] at hm
+      obtain ⟨hsl, hsq⟩ := sleep_mute wt endTime _ w1 d events hq hm
+      simp only []
+      split
+      · exact hsl
+      · exact ih _ _ hsl hsq
+
+end NoCalls
 
 end Wheatley.C16
